@@ -119,6 +119,7 @@ class FS:
         self.epoch += 1
         self.latched = None
         self.crash_at = None
+        self.crashed_at = None
 
     # ---- ticks and crashes
     def tick(self, what):
